@@ -225,6 +225,14 @@ func (g *ltGen) decimal(p int, maxInt int, signed bool) float64 {
 	if signed && r.chance(1, 3) {
 		v = -v
 	}
+	if signed && r.chance(1, 15) {
+		// a negative zero (a value the field's precision can carry: it prints as -0.00 and reads back as
+		// itself), and outside the domain a negative value too small for the field to show
+		v = math.Copysign(0, -1)
+		if !g.domain && r.bool() {
+			v = -0.4 / scale * r.float01()
+		}
+	}
 	return v
 }
 
